@@ -123,11 +123,11 @@ class ClassInfo:
 
 
 class ModuleInfo:
-    def __init__(self, name, path, src):
+    def __init__(self, name, path, src, tree=None):
         self.name = name
         self.path = path
         self.src = src
-        self.tree = ast.parse(src, filename=path)
+        self.tree = tree if tree is not None else ast.parse(src, filename=path)
         self.classes = {}
         self.functions = {}
         self.assigns = {}             # module-level name -> ast expr (last assignment)
@@ -229,10 +229,46 @@ class Repo:
             known = {k.split(":")[1].split(".")[-1] for k in table}
             cands = [fi for n, fi in pool.items() if n not in known and fingerprint(fi) == fp]
             if len(cands) == 1:
-                fi = cands[0]
-                self.renamed[key] = fi.name
-                fi.name = fname
-                pool[fname] = fi
+                self.renamed[key] = cands[0].name
+        if not self.renamed:
+            return
+        # the identifier is put back everywhere (definition, call sites, references, imports) in
+        # the parsed program - never on disk -, unless the anchored name is in use for something
+        # else or two helpers would receive the same name
+        back = {}
+        for key, new in self.renamed.items():
+            oldname = key.split(":")[1].split(".")[-1]
+            if new in back and back[new] != oldname:
+                back[new] = None
+            else:
+                back.setdefault(new, oldname)
+        used = set()
+        for m in self.modules.values():
+            for n in ast.walk(m.tree):
+                if isinstance(n, ast.Attribute):
+                    used.add(n.attr)
+                elif isinstance(n, ast.Name):
+                    used.add(n.id)
+                elif isinstance(n, (ast.FunctionDef, ast.ClassDef)):
+                    used.add(n.name)
+                elif isinstance(n, ast.arg):
+                    used.add(n.arg)
+        back = {new: o for new, o in back.items() if o is not None and o not in used}
+        self.renamed = {k: v for k, v in self.renamed.items() if v in back}
+        if not back:
+            return
+        for name, m in list(self.modules.items()):
+            for n in ast.walk(m.tree):
+                if isinstance(n, ast.Attribute) and n.attr in back:
+                    n.attr = back[n.attr]
+                elif isinstance(n, ast.Name) and n.id in back:
+                    n.id = back[n.id]
+                elif isinstance(n, ast.FunctionDef) and n.name in back:
+                    n.name = back[n.name]
+                elif isinstance(n, ast.alias) and n.name in back:
+                    n.name = back[n.name]
+            self.modules[name] = ModuleInfo(m.name, m.path, m.src, tree=m.tree)
+        self._link_classes()
 
     # ------------------------------------------------------------------ lookup
     def module(self, name):
@@ -496,3 +532,78 @@ class _Unfolded:
 def loc(fi_or_mod, node):
     path = fi_or_mod.module.path if hasattr(fi_or_mod, "module") else fi_or_mod.path
     return f"{path}:{getattr(node, 'lineno', 0)}"
+
+
+# ------------------------------------------------------------------------------------------
+# one spelling per test, for the (few) rules that match statement shapes syntactically
+_NEG_OP = {ast.In: ast.NotIn, ast.NotIn: ast.In, ast.Eq: ast.NotEq, ast.NotEq: ast.Eq,
+           ast.Is: ast.IsNot, ast.IsNot: ast.Is}
+_POSITIVE = (ast.Lt, ast.In, ast.Eq, ast.Is)
+
+
+class _CanonTests(ast.NodeTransformer):
+    """`a > b` is `b < a`; `a >= b` is `b <= a`; `not (x op y)` is the comparison with the negated
+    operator (order comparisons are negated only between len()/integer-counter operands by the
+    callers that rely on it: `not a < b` is `b <= a`); an if/else whose test is a negative
+    comparison is the if/else of the positive one with the branches exchanged."""
+
+    def visit_Compare(self, node):
+        self.generic_visit(node)
+        if len(node.ops) == 1 and isinstance(node.ops[0], (ast.Gt, ast.GtE)):
+            new = ast.Compare(left=node.comparators[0],
+                              ops=[ast.Lt() if isinstance(node.ops[0], ast.Gt) else ast.LtE()],
+                              comparators=[node.left])
+            return ast.copy_location(new, node)
+        return node
+
+    def visit_UnaryOp(self, node):
+        self.generic_visit(node)
+        if isinstance(node.op, ast.Not):
+            x = node.operand
+            if isinstance(x, ast.Compare) and len(x.ops) == 1:
+                op = type(x.ops[0])
+                if op in _NEG_OP:
+                    return ast.copy_location(
+                        ast.Compare(left=x.left, ops=[_NEG_OP[op]()], comparators=x.comparators),
+                        node)
+                if op in (ast.Lt, ast.LtE):       # (Gt / GtE are already mirrored)
+                    return ast.copy_location(
+                        ast.Compare(left=x.comparators[0],
+                                    ops=[ast.LtE() if op is ast.Lt else ast.Lt()],
+                                    comparators=[x.left]), node)
+        return node
+
+    def visit_If(self, node):
+        self.generic_visit(node)
+        if node.orelse and not (len(node.orelse) == 1 and isinstance(node.orelse[0], ast.If)):
+            t = node.test
+            flip = None
+            if isinstance(t, ast.UnaryOp) and isinstance(t.op, ast.Not):
+                flip = t.operand
+            elif isinstance(t, ast.Compare) and len(t.ops) == 1 \
+                    and not isinstance(t.ops[0], _POSITIVE):
+                op = type(t.ops[0])
+                if op in _NEG_OP:
+                    flip = ast.Compare(left=t.left, ops=[_NEG_OP[op]()], comparators=t.comparators)
+                elif op is ast.LtE:
+                    flip = ast.Compare(left=t.comparators[0], ops=[ast.Lt()], comparators=[t.left])
+            if flip is not None:
+                ast.copy_location(flip, t)
+                node.test = flip
+                node.body, node.orelse = node.orelse, node.body
+        return node
+
+
+_canon_cache = {}
+
+
+def canonical_tests(node):
+    """a copy of a function's syntax tree (line numbers kept) with one spelling per test"""
+    import copy
+    key = id(node)
+    hit = _canon_cache.get(key)
+    if hit is None or hit[0] is not node:
+        new = _CanonTests().visit(copy.deepcopy(node))
+        ast.fix_missing_locations(new)
+        hit = _canon_cache[key] = (node, new)
+    return hit[1]
